@@ -76,9 +76,13 @@ class C08(DocProp):
             return self._exh(case, col)
         text, feats = self.load(case)
         self.feats_hist(col, feats)
-        for o in case["opts"]:
+        # "every other option setting" includes plaintext mode: the same textual rules apply there
+        for o in case["opts"] + [dict(case["opts"][0], plaintext=True)]:
             col.case()
-            o = dict(o, plaintext=False)
+            if not o.get("plaintext"):
+                o = dict(o, plaintext=False)
+            else:
+                col.count("plaintext_option_sets")
             off = fm.fmt(text, **dict(o, smartquotes=False))
             on = fm.fmt(text, **dict(o, smartquotes=True))
             sub = dict(case, opts=[o])
